@@ -1369,6 +1369,9 @@ class Encoder:
             r = self.intrinsic(state, m.group(1), args, dest_ty)
             if r is not None:
                 return ("value", r)
+        if re.match(r"^<.* as (?:\w+::)*AsRef<(?:str|\[u8\])>>::as_ref$", func.strip()) and len(args) == 1:
+            # string views (abbreviations, names) are opaque to the encoder
+            return ("value", VOpaque("as_ref<str>"))
         r = self.closure_call(state, func, args, pc)
         if r is not None:
             return r
